@@ -16,3 +16,21 @@ use opaque::CurrentSessionId;
 #[derive(Debug)] pub struct SessionStore;
 #[derive(Debug)] pub struct SessionConfig;
 type PhantomUnsend = ();
+
+/// uuid::Uuid: Copy, comparable, hashable, and — unlike SessionId — printable
+#[derive(Clone, Copy, Eq, PartialEq, Hash, PartialOrd, Ord, Debug, Default)]
+pub struct Uuid(pub u128);
+impl core::fmt::Display for Uuid { fn fmt(&self, f: &mut core::fmt::Formatter<'_>) -> core::fmt::Result { write!(f, "{:032x}", self.0) } }
+// The transitive half of the frame: every other field of `Session` is printed through its own `Debug`; none of them can
+// print an id as long as the id TYPE itself cannot be formatted.  (static_assertions' `assert_not_impl_any!` trick:
+// the call below is ambiguous, hence a compile error, iff SessionId implements the trait.)
+trait SessionIdMustNotImplementDebug<A> { fn check() {} }
+impl<T: ?Sized> SessionIdMustNotImplementDebug<()> for T {}
+impl<T: ?Sized + core::fmt::Debug> SessionIdMustNotImplementDebug<u8> for T {}
+trait SessionIdMustNotImplementDisplay<A> { fn check() {} }
+impl<T: ?Sized> SessionIdMustNotImplementDisplay<()> for T {}
+impl<T: ?Sized + core::fmt::Display> SessionIdMustNotImplementDisplay<u8> for T {}
+fn the_id_type_cannot_be_formatted() {
+    let _ = <SessionId as SessionIdMustNotImplementDebug<_>>::check;
+    let _ = <SessionId as SessionIdMustNotImplementDisplay<_>>::check;
+}
